@@ -122,16 +122,36 @@ func simCase(run *vkit.Run, i int) {
 	budget := 20*n + 10_000
 	tbl := c.table(c.Target)
 
-	classes := append(append([]string(nil), forgedClasses...), ctlValidFull, ctlValidMin)
-	for ci, class := range classes {
-		if _, applicable := tbl.signerSet(class); !applicable {
+	type variant struct {
+		class    string
+		sameVote bool
+	}
+	var variants []variant
+	for _, class := range append(append([]string(nil), forgedClasses...), ctlValidFull, ctlValidMin) {
+		variants = append(variants, variant{class, false})
+	}
+	if c.Late {
+		// the same forgeries for the very vote an honest participant already reported (the simulator
+		// must judge every report, not every distinct vote)
+		for _, class := range []string{clsOne, clsAllButEn, clsMaxBelow, clsOneUnit, clsZeroPower, clsAggFlip, clsAggSigners} {
+			variants = append(variants, variant{class, true})
+		}
+	}
+	// only reachable when the simulator's table of the target instance is not the configured one
+	variants = append(variants, variant{clsStaleTable, false})
+	for ci, vr := range variants {
+		class := vr.class
+		if _, applicable := tbl.signerSet(class); !applicable && class != clsStaleTable {
 			run.Count("sim_class_not_applicable", 1)
 			continue
 		}
-		out := runForger(c, class, at, budget, run.SubSeed(int64(i))+int64(ci)*7919)
+		out := runForger(c, class, at, budget, run.SubSeed(int64(i))+int64(ci)*7919, vr.sameVote)
+		if vr.sameVote {
+			class += "+same-vote-as-an-honest-decision"
+		}
 		run.Count("sim_runs_total", 1)
 		run.Eval(1)
-	run.Eval(1)
+		run.Eval(1)
 		if bad(out) {
 			continue
 		}
